@@ -76,7 +76,12 @@ def c07(sc, tier, seed):
                                          'TTL/PTTL replies are accepted in the window [expected - elapsed - 1.5 s, expected]'])
 
 
-CHECKS = {'C02': c02, 'C07': c07, 'C06': c06, 'C03': c03, 'C04': c04, 'C05': c05}
+def c09(sc, tier, seed):
+    return transition_check(sc, tier, seed, 'C09', ['MC_txn'], 12000,
+                            'TLC enumerates the tree of ALL programs of length 4 (so every shorter program as a prefix) of one connection over {MULTI, EXEC, DISCARD, WATCH, UNWATCH, 2 good commands, 2 commands failing at run time, unknown command, bad arity, a read} interleaved at every position with at most one command of a second connection (write / read / pop) - 41472 programs - checks QueuedInvisible, ResetAfterExec, ExecAllOrNothing, SessionIsolation and WatchIff on the ideal reading, and each program is replayed deterministically on two real connections: every reply, the full database state after every step, and at the end each connection\'s MULTI state / selected db / protocol / name are compared.')
+
+
+CHECKS = {'C02': c02, 'C09': c09, 'C07': c07, 'C06': c06, 'C03': c03, 'C04': c04, 'C05': c05}
 
 
 def replay_path(path):
